@@ -237,6 +237,15 @@ class PteraTransformer(NodeTransformer):
             for el in self.to_instrument
         ):
             return True
+        # x.attr = ... is reported through an interaction on x, so a
+        # capture named "x.attr" requires instrumenting x
+        if any(
+            isinstance(el.name, str)
+            and "." in el.name
+            and el.name.split(".")[0] == varname
+            for el in self.to_instrument
+        ):
+            return True
         return False
 
     def _ann(self, ann):
